@@ -758,3 +758,56 @@ func (g *G) Clone() *G {
 	}
 	return n
 }
+
+// Shape renders kind, layout and every nested length (uncapped): two models with
+// the same Shape differ at most in ordinate values.
+func (g *G) Shape() string {
+	var sb strings.Builder
+	g.shape(&sb)
+	return sb.String()
+}
+
+func (g *G) shape(sb *strings.Builder) {
+	fmt.Fprintf(sb, "%s/%s", g.Kind, g.CollectionLayout())
+	switch g.Kind {
+	case Point:
+		fmt.Fprintf(sb, "[%d]", len(g.C0))
+	case LineString, LinearRing, MultiPoint:
+		sb.WriteByte('[')
+		for _, c := range g.C1 {
+			fmt.Fprintf(sb, "%d,", len(c))
+		}
+		sb.WriteByte(']')
+	case Polygon, MultiLineString:
+		sb.WriteByte('[')
+		for _, l := range g.C2 {
+			sb.WriteByte('(')
+			for _, c := range l {
+				fmt.Fprintf(sb, "%d,", len(c))
+			}
+			sb.WriteByte(')')
+		}
+		sb.WriteByte(']')
+	case MultiPolygon:
+		sb.WriteByte('[')
+		for _, p := range g.C3 {
+			sb.WriteByte('{')
+			for _, l := range p {
+				sb.WriteByte('(')
+				for _, c := range l {
+					fmt.Fprintf(sb, "%d,", len(c))
+				}
+				sb.WriteByte(')')
+			}
+			sb.WriteByte('}')
+		}
+		sb.WriteByte(']')
+	case Collection:
+		sb.WriteByte('<')
+		for _, m := range g.Members {
+			m.shape(sb)
+			sb.WriteByte(';')
+		}
+		sb.WriteByte('>')
+	}
+}
